@@ -132,3 +132,17 @@ def apply_measurement_errors(
             result[bitstring_with_error] += 1
 
     return result
+
+
+def observable_aggregation_kwargs(method: str) -> dict:
+    """
+    pulser-core >= 1.9 requires every Observable to declare how its values are
+    combined across several runs (`default_aggregation_method`); pulser-core 1.8
+    does not know that argument. Returns the keyword arguments to forward to
+    `Observable.__init__` for the installed version.
+    """
+    try:
+        from pulser.backend.observable import AggregationMethod
+    except ImportError:  # pulser-core < 1.9
+        return {}
+    return {"default_aggregation_method": getattr(AggregationMethod, method)}
